@@ -203,6 +203,32 @@ func c04Switch(mn string, layout int, d int, org int64, from int) *ProgCase {
 	return &ProgCase{P: p, Prop: "C04", Ctx: ctx, Cell_: fmt.Sprintf("%s %d->%d %s %s", mn, from, to, names[layout], distClass(d))}
 }
 
+// c04Abs: 32-bit code whose branch and target are far apart in the 4 GiB space
+// (addresses wrap modulo 2^32, so every target is reachable with rel32), or
+// which lives above 2^31.
+func c04Abs(mn string, org int64, target int64, labelD int) *ProgCase {
+	p := Prog{}
+	p.Stmts = append(p.Stmts, PStmt{K: "org", N: org}, PStmt{K: "bits", N: 32}, PStmt{K: "inst", X: mkInst("NOP", 32)})
+	tk := "numeric"
+	if labelD >= 0 {
+		// label target labelD bytes ahead, then a backward branch to it as well
+		tk = "label"
+		p.Stmts = append(p.Stmts, PStmt{K: "jmp", Mn: mn, Label: "target"})
+		p.Stmts = append(p.Stmts, filler(2, labelD)...)
+		p.Stmts = append(p.Stmts, PStmt{K: "label", Label: "target"}, PStmt{K: "inst", X: mkInst("HLT", 32)}, PStmt{K: "jmp", Mn: mn, Label: "target"},
+			PStmt{K: "label", Label: "zend"}, PStmt{K: "data", W: 4, Items: []DItem{{Kind: "label", Label: "zend", Text: "zend"}}})
+	} else {
+		p.Stmts = append(p.Stmts, PStmt{K: "jmp", Mn: mn, Num: true, N: target, Text: fmt.Sprintf("0x%x", target)},
+			PStmt{K: "label", Label: "zend"}, PStmt{K: "inst", X: mkInst("HLT", 32)}, PStmt{K: "jmp", Mn: "JMP", Label: "zend"})
+	}
+	hi := "low-org"
+	if org >= 0x80000000 {
+		hi = "high-org"
+	}
+	ctx := fmt.Sprintf("%s|%s|abs-%s|target=%s", branchClass(mn), tk, hi, immClass(target))
+	return &ProgCase{P: p, Prop: "C04", Ctx: ctx, Cell_: fmt.Sprintf("%s m32 %s abs org=%#x target=%#x d=%d", mn, tk, org, target, labelD)}
+}
+
 // FarCase: JMP seg:off
 type FarCase struct {
 	Mode  int    `json:"mode"`
@@ -228,18 +254,30 @@ func (c *FarCase) Reqs() []Req { return []Req{{Src: []byte(c.src())}} }
 func (c *FarCase) Judge(rs []Res, env *Env) Outcome {
 	o := Outcome{Cell: c.Cell_}
 	r := rs[0]
-	if ok, why := env.accepted(&r); !ok {
-		o.Status, o.Note = Rejected, why
-		return o
-	}
-	if d := env.Diags(&r); len(d) > 0 {
-		o.Status, o.Note = Rejected, "diagnostic: "+parseLog(d[0]).Msg
-		return o
-	}
 	out := r.Out
 	fail := func(kind, detail string) Outcome {
 		o.Status = Violated
 		o.Viols = []Violation{{Sig: fmt.Sprintf("C04|far-%s|m%d|%s", kind, c.Mode, c.Cell_), Detail: fmt.Sprintf("%s -> %s: %s", oneLine(c.src(), 80), hex.EncodeToString(out), detail)}}
+		return o
+	}
+	// the form exists when the selector is a 16-bit value and the offset fits the offset field (32 bits with DWORD or in 32-bit mode)
+	offBits := 16
+	if c.Dword || c.Mode == 32 {
+		offBits = 32
+	}
+	formExists := c.Sel >= 0 && c.Sel <= 0xffff && c.Off >= 0 && uint64(c.Off) <= widthMask(offBits)
+	if ok, why := env.accepted(&r); !ok {
+		if formExists {
+			return fail("refused", "a far jump whose selector and offset fit their fields is refused ("+why+")")
+		}
+		o.Status, o.Note = Rejected, why
+		return o
+	}
+	if d := env.Diags(&r); len(d) > 0 {
+		if formExists {
+			return fail("refused", "a far jump whose selector and offset fit their fields is refused (diagnostic: "+parseLog(d[0]).Msg+")")
+		}
+		o.Status, o.Note = Rejected, "diagnostic: "+parseLog(d[0]).Msg
 		return o
 	}
 	if len(out) == 0 || !bytes.HasSuffix(out, []byte{0x90}) {
@@ -329,6 +367,21 @@ func init() {
 					}
 				}
 			}
+			if mode == 32 {
+				for _, mn := range mns {
+					k++
+					if env.Tier == "quick" && k%4 != 0 && mn != "JMP" && mn != "CALL" && mn != "JE" {
+						continue
+					}
+					for _, org := range []int64{0x280000, 0x7ffffff0, 0x80000000, 0xc0100000, 0xfffff000} {
+						for _, tgt := range []int64{0x10, 0x7ffffff0, 0x80000000, 0xc0100010, 0xfffffff0} {
+							add(c04Abs(mn, org, tgt, -1))
+						}
+						add(c04Abs(mn, org, 0, 5))
+						add(c04Abs(mn, org, 0, 200))
+					}
+				}
+			}
 			for _, sel := range []int64{0, 1, 8, 0x10, 0x7fff, 0x8000, 0xffff} {
 				for _, off := range []int64{0, 1, 8, 0x10, 0x1b, 0x7fff, 0x8000, 0xffff, 0x10000, 0x7fffffff, 0xffffffff} {
 					for _, dw := range []bool{false, true} {
@@ -338,7 +391,7 @@ func init() {
 				}
 			}
 		}
-		rep.Rule = "one program per (31 jump mnemonics + CALL) x displacement d in [-140,140] and +-{32760..32775} measured from the end of the shortest form x forward/backward x filler (RESB, NOPs, DB) x label/numeric target x ORG in {none,0x100,0x7c00,0xfff0} x BITS, with and without labels after the branch; every mnemonic right after / long before a [BITS] directive that changes the mode (4 layouts x 4 distances x both directions of the switch); far JMP seg:off (with/without DWORD) for boundary selector/offset values; " +
+		rep.Rule = "one program per (31 jump mnemonics + CALL) x displacement d in [-140,140] and +-{32760..32775} measured from the end of the shortest form x forward/backward x filler (RESB, NOPs, DB) x label/numeric target x ORG in {none,0x100,0x7c00,0xfff0} x BITS, with and without labels after the branch; every mnemonic right after / long before a [BITS] directive that changes the mode (4 layouts x 4 distances x both directions of the switch); 32-bit branches between far-apart addresses of the 4 GiB space and in code placed above 2^31 (5 origins x 5 numeric targets, label targets 5 and 200 bytes ahead and behind); a refusal of a reachable branch or of an existing far-jump form is a violation; far JMP seg:off (with/without DWORD) for boundary selector/offset values; " +
 			"oracle: the walker finds the branch, the reference decoder gives its condition and displacement, address(next)+disp must equal the true address of the target statement, and a label after the branch must have its true value (size agreement); " +
 			"thorough enumerates the whole product, quick takes every mnemonic at every boundary distance plus a seeded sample; non-trivial = accepted and judged; distinct = (mnemonic, mode, target kind, direction, distance class, labels-after) cells"
 		if env.Tier == "thorough" {
